@@ -55,3 +55,17 @@ Definition case_ok (c : case) : bool :=
 
 Definition mismatches (cs : list case) : list N :=
   flat_map (fun c => if case_ok c then [] else [fst (fst (fst c))]) cs.
+
+(* ---- path computation: codegen.SnakeCase and filepath.Join observed on the real code *)
+Fixpoint list_bytes_eqb (a b : list bytes) : bool :=
+  match a, b with
+  | [], [] => true
+  | x :: a', y :: b' => bytes_eqb x y && list_bytes_eqb a' b'
+  | _, _ => false
+  end.
+
+Definition snake_mismatches (cs : list (N * bytes * bytes)) : list N :=
+  flat_map (fun c => match c with (i, inp, out) => if bytes_eqb (snake_case inp) out then [] else [i] end) cs.
+
+Definition join_mismatches (cs : list (N * list bytes * list bytes)) : list N :=
+  flat_map (fun c => match c with (i, elems, out) => if list_bytes_eqb (join_clean elems) out then [] else [i] end) cs.
